@@ -74,6 +74,7 @@ def replay_root(model, deviation=False, family=False):
 
 
 def job_dak(job):
+    job.solve_defaults = {"elim": True}   # the root finder's f(r) = 0 is solved for p_r (linear, monomial coefficient)
     job.stub("scipy.optimize.minimize: contract stub (result.x inside the bounds handed over; objective closure "
              "recorded)", "scipy.optimize.brentq: contract stub (ValueError unless f(a) f(b) <= 0, else r in [a,b] "
              "with f(r) = 0; xtol/rtol recorded, root modelled exact)")
